@@ -14,6 +14,7 @@ from __future__ import annotations
 
 import collections
 import copy
+import dataclasses
 import typing as t
 
 import sansldap as L
@@ -85,27 +86,90 @@ SERVER_CALLS: t.Dict[str, t.Callable[[t.Any, int], t.Any]] = {
 }
 GARBAGE = b"\x04\x00"
 
-Event = t.Tuple[str, str, int]  # (kind: call|recv|garbage, name, id)
+Event = t.Tuple[str, str, int]  # (kind, name, id)
+# kinds:  call      an API call (client: name; server: name + id)
+#         callbad   the same call carrying an application-defined control whose get_value() raises (a send
+#                   that fails while encoding): whatever it raises, it must leave no trace
+#         recv      one whole PDU            recv2   the same PDU cut in two receive() calls
+#         recvpair  two PDUs "A+B" (same id, or "A+B/next" with ids i and i+1) in ONE receive() call
+#         garbage   an undecodable delivery
+
+
+@dataclasses.dataclass(frozen=True)
+class BadControl(L.LDAPControl):
+    """An application-defined control whose encoding fails."""
+
+    control_type: str = dataclasses.field(init=False, repr=False, default="1.2.3.999")
+    critical: bool = dataclasses.field(init=False, repr=False, default=False)
+    value: t.Optional[bytes] = dataclasses.field(init=False, repr=False, default=None)
+
+    def get_value(self, options: L.ControlOptions) -> t.Optional[bytes]:
+        raise ValueError("application control failed to encode")
+
+
+BAD = [BadControl()]
+CLIENT_BAD: t.Dict[str, t.Callable[[t.Any], t.Any]] = {
+    "bind_simple": lambda c: c.bind_simple(controls=BAD),
+    "search": lambda c: c.search_request(controls=BAD),
+    "ext": lambda c: c.extended_request("1.2", controls=BAD),
+}
+SERVER_BAD: t.Dict[str, t.Callable[[t.Any, int], t.Any]] = {
+    "bind_response-ok": lambda s, i: s.bind_response(i, controls=BAD),
+    "ext_response": lambda s, i: s.extended_response(i, controls=BAD),
+    "notice": lambda s, i: s.extended_response(i, NOTICE, controls=BAD),
+    "entry": lambda s, i: s.search_result_entry(i, "", [], controls=BAD),
+    "done": lambda s, i: s.search_result_done(i, controls=BAD),
+}
+PAIR_RESP = ["BindResp-ok", "BindResp-sasl", "Entry", "Done", "ExtResp", "Notice"]
 
 
 def events(role: str, kmax: int) -> t.List[Event]:
     ev: t.List[Event] = []
     if role == "client":
         ev += [("call", n, -1) for n in CLIENT_CALLS]
+        ev += [("callbad", n, -1) for n in CLIENT_BAD]
         for i in range(0, kmax + 2):
             ev += [("recv", n, i) for n in RESP_KINDS]
         for i in (0, 1):
             ev += [("recv", n, i) for n in REQ_KINDS]
+        for i in (1, 2):
+            ev += [("recv2", n, i) for n in RESP_KINDS]
+        ev += [("recv2", n, 0) for n in ("Unbind", "Notice")]
+        for a in PAIR_RESP:
+            for b in PAIR_RESP:
+                ev.append(("recvpair", f"{a}+{b}", 1))
+        for a in ("Entry", "Done", "ExtResp"):
+            for b in ("Entry", "Done", "ExtResp", "BindResp-ok"):
+                ev.append(("recvpair", f"{a}+{b}/next", 1))
     else:
         ev.append(("call", "unbind", -1))
         for i in range(0, kmax + 1):
             ev += [("call", n, i) for n in SERVER_CALLS]
+        ev += [("callbad", n, 1) for n in SERVER_BAD]
         for i in range(0, kmax + 1):
             ev += [("recv", n, i) for n in REQ_KINDS]
         for i in (0, 1):
             ev += [("recv", n, i) for n in RESP_KINDS]
+        for i in (1, 2):
+            ev += [("recv2", n, i) for n in REQ_KINDS]
+        for a in REQ_KINDS:
+            for b in REQ_KINDS:
+                ev.append(("recvpair", f"{a}+{b}", 1))
+                ev.append(("recvpair", f"{a}+{b}/next", 1))
     ev.append(("garbage", "0400", -1))
     return ev
+
+
+def event_messages(ev: Event) -> t.List[t.Tuple[str, int]]:
+    """The (kind name, id) of every PDU an event delivers, in order."""
+    kind, name, i = ev
+    if kind in ("recv", "recv2"):
+        return [(name, i)]
+    if kind == "recvpair":
+        nxt = name.endswith("/next")
+        a, b = name.replace("/next", "").split("+")
+        return [(a, i), (b, i + 1 if nxt else i)]
+    return []
 
 
 def apply_event(role: str, s: t.Any, ev: Event) -> t.Any:
@@ -116,8 +180,17 @@ def apply_event(role: str, s: t.Any, ev: Event) -> t.Any:
         if role == "client":
             return CLIENT_CALLS[name](s)
         return SERVER_CALLS[name](s, i)
+    if kind == "callbad":
+        return CLIENT_BAD[name](s) if role == "client" else SERVER_BAD[name](s, i)
     if kind == "recv":
         return s.receive(make_msg(name, i).pack(OPT))
+    if kind == "recv2":
+        b = make_msg(name, i).pack(OPT)
+        cut = min(3, len(b) - 1)
+        first = s.receive(b[:cut])
+        return first + s.receive(b[cut:])
+    if kind == "recvpair":
+        return s.receive(b"".join(make_msg(n, j).pack(OPT) for n, j in event_messages(ev)))
     return s.receive(GARBAGE)
 
 
@@ -162,6 +235,44 @@ def _first_id(out: bytes) -> t.Optional[int]:
         return None
 
 
+def _client_expect(inprog: t.Dict[int, str], msgs: t.List[t.Tuple[str, int]]) -> t.Tuple[t.Optional[bool], t.Dict[int, str], str]:
+    """Documented fate of a delivery to a client: (expected accepted? / None = the property is silent, ghost after, why)."""
+    g = dict(inprog)
+    for name, i in msgs:
+        if name in REQ_KINDS:
+            return False, g, f"{name} is a request-type message"
+        if name == "Notice":
+            return False, g, "notice of disconnection terminates"
+        st = g.get(i)
+        if st == "unk":
+            return None, g, "unknown"
+        if st is None:
+            return False, g, f"{name} for id {i} which is not in progress"
+        if st == "search":
+            if name == "Done":
+                g.pop(i, None)
+            elif name not in ("Entry", "Ref"):
+                g[i] = "unk"  # the property does not say what a mismatched kind does to a search
+        else:
+            g.pop(i, None)
+    return True, g, "every id is in progress"
+
+
+def _server_expect(inprog: t.Dict[int, str], msgs: t.List[t.Tuple[str, int]]) -> t.Tuple[t.Optional[bool], t.Dict[int, str], str]:
+    g = dict(inprog)
+    for name, i in msgs:
+        if name in RESP_KINDS:
+            return False, g, f"{name} is a response-type message"
+        if name == "Unbind":
+            return False, g, "unbind terminates"
+        if name == "BindReq" and any(v != "unk" for v in g.values()):
+            return False, g, f"bind request while {sorted(g)} are outstanding"
+        if name == "BindReq" and g:
+            return None, g, "unknown"
+        g[i] = {"BindReq": "bind", "SearchReq": "search", "ExtReq": "ext"}[name]
+    return True, g, "requests are always accepted"
+
+
 def monitors(role: str, g: Ghost, ev: Event, rec: Rec, viol: t.List[t.Tuple[str, str, str]], kmax: int) -> Ghost:
     kind, name, i = ev
     traffic, inprog_t, issued = g
@@ -172,15 +283,20 @@ def monitors(role: str, g: Ghost, ev: Event, rec: Rec, viol: t.List[t.Tuple[str,
     def flag(prop: str, key: str, what: str) -> None:
         viol.append((prop, key, what))
 
-    is_call = kind == "call"
-    is_recv = kind in ("recv", "garbage")
-    # (g) only the library's error types
+    is_call = kind in ("call", "callbad")
+    is_recv = not is_call
+    single = kind in ("recv", "recv2")  # one PDU: every lifecycle clause applies
+    msgs = event_messages(ev)
+    # (g) only the library's error types (a callbad raises whatever the application's control raised)
     if exc is not None:
-        if is_call and not isinstance(exc, L.LDAPError):
+        if kind == "call" and not isinstance(exc, L.LDAPError):
             flag("C08", f"g-call-raises:{type(exc).__name__}:{name}", f"{name} raised {type(exc).__name__}: {exc}")
             flag("C10", f"refused-with-foreign-exception:{type(exc).__name__}:{name}", f"{name} raised {type(exc).__name__}: {exc}")
         if is_recv and not isinstance(exc, L.ProtocolError):
             flag("C08", f"g-receive-raises:{type(exc).__name__}", f"receive({name}) raised {type(exc).__name__}: {exc}")
+            flag("C05", f"receive-raises:{type(exc).__name__}:after-history", f"{role}.receive({kind} {name} id {i}) raised {type(exc).__name__}: {exc}")
+    if kind == "callbad" and accepted:
+        flag("C10", f"failed-encoding-accepted:{role}:{name}", f"{role} {name} with a control that cannot be encoded returned normally")
     # C10: a refused send call leaves the outgoing stream untouched
     if is_call and not accepted and out:
         flag("C10", f"refused-call-left-bytes:{role}:{name}", f"{role} {name}({i}) was refused ({type(exc).__name__}) but {len(out)} bytes were queued: {out.hex()[:60]}")
@@ -195,55 +311,73 @@ def monitors(role: str, g: Ghost, ev: Event, rec: Rec, viol: t.List[t.Tuple[str,
         return g
     # (h) a refused call changes nothing visible
     if is_call and not accepted and post != pre:
-        if role == "server" and pre == S.BEFORE_OPEN and post == S.OPENED and name != "unbind":
+        if role == "server" and pre == S.BEFORE_OPEN and post == S.OPENED and name != "unbind" and isinstance(exc, L.LDAPError):
             # one call site: any refused response call on a server that has seen no traffic
             flag("C08", "h-refused-response-opens-fresh-server", f"server {name}({i}) was refused but state went BEFORE_OPEN -> OPENED")
         else:
-            flag("C08", f"h-refused-call-changed-state:{role}:{name}:{pre.name}->{post.name}", f"{role} {name}({i}) was refused but state went {pre.name} -> {post.name}")
-    is_bindreq = accepted and ((role == "client" and is_call and name.startswith("bind_")) or (role == "server" and kind == "recv" and name == "BindReq"))
+            flag("C08", f"h-refused-call-changed-state:{role}:{kind}:{name}:{pre.name}->{post.name}", f"{role} {name}({i}) failed ({type(exc).__name__}) but state went {pre.name} -> {post.name}")
+    is_bindreq = accepted and ((role == "client" and kind == "call" and name.startswith("bind_")) or (role == "server" and single and name == "BindReq"))
     is_final_bindresp = accepted and (
-        (role == "server" and is_call and name in ("bind_response-ok", "bind_response-bad"))
-        or (role == "client" and kind == "recv" and name in ("BindResp-ok", "BindResp-bad"))
+        (role == "server" and kind == "call" and name in ("bind_response-ok", "bind_response-bad"))
+        or (role == "client" and single and name in ("BindResp-ok", "BindResp-bad"))
     )
-    # (b) BINDING is entered exactly by an accepted bind request
-    if pre != S.BINDING and post == S.BINDING and not is_bindreq:
-        flag("C08", f"b-binding-without-bind-request:{role}:{name}", f"{role} entered BINDING on {kind} {name} ({'accepted' if accepted else 'refused'})")
-    if is_bindreq and post != S.BINDING:
-        flag("C08", f"b-bind-request-not-binding:{role}", f"{role} accepted a bind request but state is {post.name}")
-    # (c) BINDING is left only by a final bind response or a termination
-    if pre == S.BINDING and post not in (S.BINDING, S.CLOSED) and not is_final_bindresp:
-        flag("C08", f"c-left-binding:{role}:{name}:{'accepted' if accepted else 'refused'}", f"{role} left BINDING for {post.name} on {kind} {name}")
-    if pre == S.BINDING and is_final_bindresp and post != S.OPENED:
-        flag("C08", f"c-final-bind-response-not-opened:{role}", f"{role} processed a final bind response but state is {post.name}")
-    if pre == S.BINDING and post == S.CLOSED:
-        legit = (is_call and accepted and name in ("unbind", "notice")) or (is_recv and isinstance(exc, L.ProtocolError))
-        if not legit:
-            flag("C08", f"c-binding-closed-without-termination:{role}:{name}", f"{role} went BINDING -> CLOSED on {kind} {name}")
-    # (d) a bind cannot start while other operations are outstanding
-    if is_bindreq and any(v != "unk" for v in inprog.values()):
-        flag("C08", f"d-bind-with-outstanding:{role}", f"{role} accepted a bind request while {sorted(inprog.items())} were in progress")
-    # (e) while BINDING only bind traffic or a termination is sent
-    if pre == S.BINDING and is_call and accepted and not (name.startswith("bind_") or name in ("unbind", "notice")):
-        flag("C08", f"e-sent-while-binding:{role}:{name}", f"{role} sent {name} while BINDING")
-    # (f) BEFORE_OPEN is left exactly on first traffic
-    got_msgs = is_recv and accepted and bool(ret)
-    if (is_call and accepted or got_msgs) and post == S.BEFORE_OPEN:
-        flag("C08", f"f-traffic-but-before-open:{role}:{name}", f"{role} sent/received {name} but is still BEFORE_OPEN")
-    if pre == S.BEFORE_OPEN and post not in (S.BEFORE_OPEN, S.CLOSED) and not (is_call and accepted or got_msgs):
-        if not (is_call and not accepted):  # that case is already reported by (h)
-            flag("C08", f"f-opened-without-traffic:{role}:{name}", f"{role} left BEFORE_OPEN for {post.name} without traffic")
+    if is_call or single or kind == "garbage":
+        # (b) BINDING is entered exactly by an accepted bind request
+        if pre != S.BINDING and post == S.BINDING and not is_bindreq:
+            flag("C08", f"b-binding-without-bind-request:{role}:{name}", f"{role} entered BINDING on {kind} {name} ({'accepted' if accepted else 'refused'})")
+        if is_bindreq and post != S.BINDING:
+            flag("C08", f"b-bind-request-not-binding:{role}", f"{role} accepted a bind request but state is {post.name}")
+        # (c) BINDING is left only by a final bind response or a termination
+        if pre == S.BINDING and post not in (S.BINDING, S.CLOSED) and not is_final_bindresp:
+            flag("C08", f"c-left-binding:{role}:{name}:{'accepted' if accepted else 'refused'}", f"{role} left BINDING for {post.name} on {kind} {name}")
+        if pre == S.BINDING and is_final_bindresp and post != S.OPENED:
+            flag("C08", f"c-final-bind-response-not-opened:{role}", f"{role} processed a final bind response but state is {post.name}")
+        if pre == S.BINDING and post == S.CLOSED:
+            legit = (kind == "call" and accepted and name in ("unbind", "notice")) or (is_recv and isinstance(exc, L.ProtocolError))
+            if not legit:
+                flag("C08", f"c-binding-closed-without-termination:{role}:{name}", f"{role} went BINDING -> CLOSED on {kind} {name}")
+        # (e) while BINDING only bind traffic or a termination is sent
+        if pre == S.BINDING and is_call and accepted and not (name.startswith("bind_") or name in ("unbind", "notice")):
+            flag("C08", f"e-sent-while-binding:{role}:{name}", f"{role} sent {name} while BINDING")
+        # (f) BEFORE_OPEN is left exactly on first traffic
+        got_msgs = is_recv and accepted and bool(ret)
+        if (is_call and accepted or got_msgs) and post == S.BEFORE_OPEN:
+            flag("C08", f"f-traffic-but-before-open:{role}:{name}", f"{role} sent/received {name} but is still BEFORE_OPEN")
+        if pre == S.BEFORE_OPEN and post not in (S.BEFORE_OPEN, S.CLOSED) and not (is_call and accepted or got_msgs):
+            if not (is_call and not accepted):  # that case is already reported by (h)
+                flag("C08", f"f-opened-without-traffic:{role}:{name}", f"{role} left BEFORE_OPEN for {post.name} without traffic")
     # closing: unbind / notice sent, or any ProtocolError on receive
-    if is_call and accepted and name in ("unbind", "notice") and post != S.CLOSED:
+    if kind == "call" and accepted and name in ("unbind", "notice") and post != S.CLOSED:
         flag("C08", f"term-not-closed:{role}:{name}", f"{role} sent {name} but state is {post.name}")
     if is_recv and exc is not None and post != S.CLOSED:
         flag("C08", f"error-not-closed:{role}:{type(exc).__name__}", f"{role}.receive raised {type(exc).__name__} but state is {post.name}")
     if is_recv and accepted and post == S.CLOSED:
         flag("C08", f"closed-without-error:{role}:{name}", f"{role}.receive({name}) returned normally but the session is CLOSED")
+    if is_recv and accepted and kind != "garbage" and len(ret) != len(msgs):
+        flag("C08", f"delivery-count:{role}:{kind}", f"{role}.receive({kind} {name}) returned {len(ret)} messages for {len(msgs)} PDUs")
+
+    # (i) documented preconditions hold => the call is accepted (ghost-based; silent where the ghost is unknown)
+    definite = {k: v for k, v in inprog.items() if v != "unk"}
+    if kind == "call" and not any(v == "unk" for v in inprog.values()):
+        if role == "client":
+            if name.startswith("bind_"):
+                should = not inprog
+            elif name == "unbind":
+                should = True
+            else:
+                should = pre != S.BINDING
+        else:
+            if name == "unbind":
+                should = True
+            else:
+                should = i in inprog and (pre != S.BINDING or name.startswith("bind_response") or name == "notice")
+        if should and not accepted and isinstance(exc, L.LDAPError):
+            flag("C08", f"i-documented-call-refused:{role}:{name}:{pre.name}", f"{role} {name}({i}) refused in {pre.name} with in-progress {sorted(inprog.items())}: {exc}")
 
     issued2 = issued
     # ---- client ghost + C09 ----
     if role == "client":
-        if is_call and accepted and name != "unbind":
+        if kind == "call" and accepted and name != "unbind":
             issued2 = issued + 1
             if not (type(ret) is int and ret > 0 and ret > issued):
                 flag("C09", f"id-not-increasing:{name}", f"{name} returned id {ret!r} after {issued}")
@@ -253,40 +387,49 @@ def monitors(role: str, g: Ghost, ev: Event, rec: Rec, viol: t.List[t.Tuple[str,
             if type(ret) is int:
                 issued2 = max(issued2, ret)
                 inprog[ret] = "search" if name == "search" else "bind" if name.startswith("bind_") else "ext"
-        if kind == "recv":
-            if name in REQ_KINDS:
-                if accepted:
-                    flag("C09", f"request-accepted:{name}", f"client accepted a request-type message {name}")
-                elif not isinstance(exc, L.ProtocolError) or post != S.CLOSED:
-                    flag("C09", f"request-not-fatal:{name}", f"client rejected {name} with {type(exc).__name__}, state {post.name}")
-            elif name in RESP_KINDS and name != "Notice":
-                st = inprog.get(i)
-                if st != "unk":
-                    expected = st is not None
-                    if expected != accepted:
-                        flag(
-                            "C09",
-                            f"response-{'rejected' if expected else 'accepted'}:{name}:{'in-progress' if expected else 'not-in-progress'}:{st}",
-                            f"{name} for id {i} was {'accepted' if accepted else 'rejected'}; ghost in-progress = {dict(inprog)}",
-                        )
-                    if not accepted and (not isinstance(exc, L.ProtocolError) or post != S.CLOSED):
-                        flag("C09", f"reject-not-fatal:{name}", f"rejected response raised {type(exc).__name__}, state {post.name}")
-                if accepted:
-                    if st == "search":
-                        if name == "Done":
-                            inprog.pop(i, None)
-                        elif name not in ("Entry", "Ref"):
-                            inprog[i] = "unk"  # the property does not say what a mismatched kind does to a search
-                    elif st == "unk":
-                        if name == "Done":  # whatever the id's status was, an accepted Done ends it
-                            inprog.pop(i, None)
-                    else:
-                        inprog.pop(i, None)
+        if msgs:
+            exp, g_after, why = _client_expect(inprog, msgs)
+            label = "+".join(n for n, _ in msgs)
+            if exp is not None and exp != accepted:
+                flag(
+                    "C09",
+                    f"response-{'rejected' if exp else 'accepted'}:{kind}:{label}:{'in-progress' if exp else 'not-in-progress'}",
+                    f"{kind} {label} (ids {[j for _, j in msgs]}) was {'accepted' if accepted else 'rejected: ' + str(exc)}; documented: {why}; ghost in-progress = {dict(inprog)}",
+                )
+            if exp is False and not accepted and (not isinstance(exc, L.ProtocolError) or post != S.CLOSED):
+                flag("C09", f"reject-not-fatal:{label}", f"rejected delivery raised {type(exc).__name__}, state {post.name}")
+            if accepted:
+                if exp is None:
+                    # replay the accepted sequence with 'unk' kept sticky
+                    for n, j in msgs:
+                        st = inprog.get(j)
+                        if st == "search":
+                            if n == "Done":
+                                inprog.pop(j, None)
+                            elif n not in ("Entry", "Ref"):
+                                inprog[j] = "unk"
+                        elif st == "unk":
+                            if n == "Done":
+                                inprog.pop(j, None)
+                        else:
+                            inprog.pop(j, None)
+                else:
+                    inprog = g_after
     # ---- server ghost + C10 ----
     else:
-        if kind == "recv" and accepted and name in ("BindReq", "SearchReq", "ExtReq"):
-            inprog[i] = {"BindReq": "bind", "SearchReq": "search", "ExtReq": "ext"}[name]
-        if is_call and name != "unbind":
+        if msgs:
+            exp, g_after, why = _server_expect(inprog, msgs)
+            label = "+".join(n for n, _ in msgs)
+            if exp is True and not accepted:
+                flag("C08", f"i-request-refused:{kind}:{label}", f"server rejected {label} (ids {[j for _, j in msgs]}): {exc}; outstanding {sorted(inprog)}")
+            if exp is False and accepted:
+                key = "d-bind-with-outstanding:server" if "bind request while" in why else f"i-delivery-accepted:{kind}:{label}"
+                flag("C08", key, f"server accepted {label} although {why}")
+            if accepted:
+                for n, j in msgs:
+                    if n in ("BindReq", "SearchReq", "ExtReq"):
+                        inprog[j] = {"BindReq": "bind", "SearchReq": "search", "ExtReq": "ext"}[n]
+        if kind == "call" and name != "unbind":
             if accepted and i not in inprog:
                 flag("C10", f"response-to-unknown-request-accepted:{name}", f"server sent {name} for id {i}; outstanding = {sorted(inprog)}")
             if accepted and i in inprog and out:
@@ -295,6 +438,9 @@ def monitors(role: str, g: Ghost, ev: Event, rec: Rec, viol: t.List[t.Tuple[str,
                     flag("C10", f"response-id-on-wire-differs:{name}", f"{name}({i}) emitted id {wire!r}")
             if accepted and name not in ("entry", "ref"):
                 inprog.pop(i, None)
+    # (d) client side: a bind cannot start while other operations are outstanding
+    if role == "client" and is_bindreq and definite:
+        flag("C08", "d-bind-with-outstanding:client", f"client accepted a bind request while {sorted(definite.items())} were in progress")
     if post == S.CLOSED:
         inprog = {}
     return (traffic or accepted, tuple(sorted(inprog.items())), issued2)
@@ -323,7 +469,7 @@ def _expand(chunk: t.Tuple[int, int]) -> t.List[t.Any]:
     for idx in range(chunk[0], chunk[1]):
         s, g, hist = frontier[idx]
         for ev in evs:
-            if role == "client" and ev[0] == "call" and ev[1] != "unbind" and g[2] >= kmax:
+            if role == "client" and ev[0] in ("call", "callbad") and ev[1] != "unbind" and g[2] >= kmax:
                 continue
             s2, g2, rec, viol = step(role, s, g, ev, kmax)
             outcome = (ev[0], ev[1], rec.pre.name, rec.post.name, type(rec.exc).__name__ if rec.exc else "ok", bool(rec.out))
@@ -341,7 +487,7 @@ def explore(role: str, kmax: int, known: t.Set[t.Tuple[str, str]], seed: int = 0
     frontier: t.List[t.Any] = [(init, G0, [])]
     res.states = 1
     # determinism: the same history replayed twice gives identical observations
-    probe = [e for e in evs if e[0] == "call"][:3] + [e for e in evs if e[0] == "recv"][:3]
+    probe = [e for e in evs if e[0] == "call"][:3] + [e for e in evs if e[0] == "recv"][:3] + [e for e in evs if e[0] == "recvpair"][:2]
     assert run_history(role, probe, kmax)[1] == run_history(role, probe, kmax)[1], "replay is not deterministic"
     while frontier:
         res.levels += 1
